@@ -378,7 +378,11 @@ def main_check(mod, tier, seed, runs=None, budget=None, jobs=None):
             next_index += batch
             pending.add(f)
 
+        stop_early = bool(os.environ.get("VERIF_STOP_ON_VIOLATION"))
+
         def want_more():
+            if stop_early and agg["viol"] and not all(match_known(load_known(mod.ID), v["key"]) for v in agg["viol"]):
+                return False          # sensitivity audits only need to know WHETHER the check fires (never used by registered commands)
             if next_index < quick_runs:
                 return True
             if budget is not None and tier != "quick":
